@@ -66,6 +66,7 @@ type oaDoc struct {
 	Schemas  []*oaNamed
 	Paths    []*oaPath
 	Cons     map[string]bool // constructs present
+	Spice    string          // the one construct class (or "") that is a known candidate for a defect
 }
 
 func (d *oaDoc) schema(name string) *oaSchema {
@@ -180,6 +181,10 @@ func (g *oaGen) prim() *oaSchema {
 }
 
 func (g *oaGen) refTo(names []string) *oaSchema {
+	if len(names) == 0 {
+		return g.prim()
+	}
+	g.con("ref")
 	return &oaSchema{K: "ref", Ref: g.r.Pick(names)}
 }
 
@@ -196,7 +201,6 @@ func (g *oaGen) propSchema(names []string, depth int, allowArr bool) *oaSchema {
 	case x < 42:
 		return g.prim()
 	case x < 60:
-		g.con("ref")
 		return g.refTo(names)
 	case x < 66:
 		g.con("enum-inline")
@@ -210,7 +214,7 @@ func (g *oaGen) propSchema(names []string, depth int, allowArr bool) *oaSchema {
 	case allowArr:
 		y := r.Intn(10)
 		switch {
-		case y < 4:
+		case y < 4 && len(names) > 0:
 			g.con("array-of-ref")
 			return &oaSchema{K: "arr", Items: g.refTo(names)}
 		case y < 8 || depth >= 2:
@@ -229,7 +233,20 @@ func (g *oaGen) object(names []string, depth, nprops int) *oaSchema {
 	o := &oaSchema{K: "obj"}
 	used := map[string]bool{}
 	for i := 0; i < nprops; i++ {
-		o.Props = append(o.Props, &oaProp{Name: g.propName(used), S: g.propSchema(names, depth, true)})
+		ps := g.propSchema(names, depth, true)
+		nested := ps.K == "obj" || ps.K == "arr" && ps.Items.K == "obj"
+		var pn string
+		for {
+			pn = g.propName(used)
+			if !nested || !strings.ContainsAny(pn, ". ") {
+				break
+			}
+			if g.spice["nested-under-escaped-name"] {
+				g.con("nested-object-under-dot-or-space-name")
+				break
+			}
+		}
+		o.Props = append(o.Props, &oaProp{Name: pn, S: ps})
 	}
 	// required list: 0..6 names
 	nreq := 0
@@ -258,14 +275,19 @@ func (g *oaGen) object(names []string, depth, nprops int) *oaSchema {
 var pathSegs = []string{"pets", "users", "orders", "items", "accounts", "v2", "a-b", "c.d", "x_y", "reports", "search", "admin"}
 var paramNames = []string{"id", "userId", "orderId", "key", "slug"}
 var queryPlain = []string{"limit", "offset", "q", "sort", "since", "expand", "cursor"}
-var queryOdd = []string{"filter.name", "page-size", "sort-by", "type", "date", "user_id", "page size"}
+var queryOdd = []string{"filter.name", "page-size", "sort-by", "type", "kind", "user_id", "page size"}
+var queryNative = []string{"date", "int", "string"}
 var headerNames = []string{"X-Request-Id", "Accept-Language", "If-Match", "x_trace", "X-Tenant"}
 var methods = []string{"get", "put", "post", "delete", "patch"}
 var okCodes = []string{"200", "201", "202", "204"}
 var errCodes = []string{"400", "401", "404", "409", "500", "503"}
 
 func (g *oaGen) paramPrim() *oaSchema {
-	ps := []oaPrim{{"string", ""}, {"string", ""}, {"integer", ""}, {"integer", "int32"}, {"integer", "int64"}, {"boolean", ""}, {"number", ""}, {"string", "date"}, {"string", "uuid"}}
+	ps := []oaPrim{{"string", ""}, {"string", ""}, {"integer", ""}, {"integer", "int32"}, {"integer", "int64"}, {"boolean", ""}, {"number", ""}, {"string", "date"}}
+	if g.spice["param-uuid"] && g.r.Chance(1, 3) {
+		g.con("param-uuid")
+		return &oaSchema{K: "prim", P: oaPrim{"string", "uuid"}}
+	}
 	return &oaSchema{K: "prim", P: ps[g.r.Intn(len(ps))]}
 }
 
@@ -306,8 +328,13 @@ func genOA(r *fw.Rand, v int, thorough bool) *oaDoc {
 		d.BasePath = r.Pick([]string{"/v1", "/api", "/api/v2"})
 	}
 	g := &oaGen{r: r, d: d, spice: map[string]bool{}, used: map[string]bool{}}
-	for _, s := range []string{"schema-native", "schema-keyword", "schema-prefix", "prop-stmt-keyword"} {
-		g.spice[s] = r.Chance(1, 12)
+	// At most one "spice" per document: a construct class that calibration showed to
+	// be a candidate for a defect of the importer. 60 % of the documents carry none,
+	// so that a failure can be attributed and most documents are compared in full.
+	if r.Chance(2, 5) {
+		d.Spice = r.Pick(oaSpices)
+		g.spice[d.Spice] = true
+		g.con("spice-" + d.Spice)
 	}
 	if d.JSON {
 		g.con("json")
@@ -342,27 +369,60 @@ func genOA(r *fw.Rand, v int, thorough bool) *oaDoc {
 			objNames = append(objNames, names[i])
 		}
 	}
+	// By default the reference graph between schemas is acyclic (schema i refers only
+	// to schemas 0..i-1); a spiced document may contain self-references and cycles.
 	for i := 0; i < ns; i++ {
 		var s *oaSchema
+		allowed := names[:i]
+		var allowedObj, earlierObj []string
+		for j := 0; j < i; j++ {
+			if kinds[j] == "obj" {
+				allowedObj = append(allowedObj, names[j])
+				earlierObj = append(earlierObj, names[j])
+			}
+		}
+		if g.spice["schema-recursion"] {
+			allowed, allowedObj = names, objNames
+		}
+		if kinds[i] == "allof" && len(earlierObj) == 0 {
+			kinds[i] = "obj"
+			objNames = append(objNames, names[i])
+			allowedObj = append(allowedObj, names[i])
+		}
 		switch kinds[i] {
 		case "obj":
 			g.con("object")
-			s = g.object(names, 0, 1+r.Intn(8))
+			s = g.object(allowed, 0, 1+r.Intn(8))
 		case "arr":
 			switch x := r.Intn(10); {
-			case x < 5:
+			case x < 5 && len(allowedObj) > 0:
 				g.con("top-array-of-ref")
-				s = &oaSchema{K: "arr", Items: &oaSchema{K: "ref", Ref: r.Pick(objNames)}}
+				s = &oaSchema{K: "arr", Items: &oaSchema{K: "ref", Ref: r.Pick(allowedObj)}}
 			case x < 8:
 				g.con("top-array-of-primitive")
 				s = &oaSchema{K: "arr", Items: g.prim()}
 			default:
 				g.con("top-array-of-object")
-				s = &oaSchema{K: "arr", Items: g.object(names, 1, 1+r.Intn(3))}
+				s = &oaSchema{K: "arr", Items: g.object(allowed, 1, 1+r.Intn(3))}
 			}
 		case "prim":
 			g.con("top-primitive")
-			s = g.prim()
+			for {
+				s = g.prim()
+				odd := v == 2 && s.P.Type == "boolean" || v == 3 && (s.P.Format == "int32" || s.P.Format == "int64")
+				if g.spice["top-prim-odd"] && r.Chance(1, 2) {
+					if v == 2 {
+						s.P = oaPrim{"boolean", ""}
+					} else {
+						s.P = oaPrim{"integer", r.Pick([]string{"int32", "int64"})}
+					}
+					g.con("top-primitive-" + s.P.Type + s.P.Format)
+					break
+				}
+				if !odd {
+					break
+				}
+			}
 		case "enum":
 			g.con("top-enum")
 			s = g.enum()
@@ -371,14 +431,14 @@ func genOA(r *fw.Rand, v int, thorough bool) *oaDoc {
 			s = &oaSchema{K: "allof"}
 			used := map[string]bool{}
 			nref := 1
-			if len(objNames) > 1 && r.Chance(1, 3) {
+			if len(earlierObj) > 1 && r.Chance(1, 3) {
 				nref = 2
 			}
-			perm := r.Perm(len(objNames))
+			perm := r.Perm(len(earlierObj))
 			for j := 0; j < nref; j++ {
-				s.Parts = append(s.Parts, &oaSchema{K: "ref", Ref: objNames[perm[j]]})
+				s.Parts = append(s.Parts, &oaSchema{K: "ref", Ref: earlierObj[perm[j]]})
 			}
-			inl := g.object(names, 1, 1+r.Intn(3))
+			inl := g.object(allowed, 1, 1+r.Intn(3))
 			s.Parts = append(s.Parts, inl)
 			_ = used
 		}
@@ -482,7 +542,7 @@ func genOA(r *fw.Rand, v int, thorough bool) *oaDoc {
 		// all operations of one path share the path parameter types (Sysl groups by path text)
 		ptypes := map[string]*oaSchema{}
 		for _, q := range pparams {
-			ptypes[q] = &oaSchema{K: "prim", P: []oaPrim{{"string", ""}, {"integer", ""}, {"integer", "int64"}, {"string", "uuid"}}[r.Intn(4)]}
+			ptypes[q] = &oaSchema{K: "prim", P: []oaPrim{{"string", ""}, {"integer", ""}, {"integer", "int64"}, {"string", ""}}[r.Intn(4)]}
 		}
 		for mi := 0; mi < nm && ops < 6; mi++ {
 			ops++
@@ -494,7 +554,9 @@ func genOA(r *fw.Rand, v int, thorough bool) *oaDoc {
 			usedQ := map[string]bool{}
 			for qi, nq := 0, r.Intn(4); qi < nq; qi++ {
 				var qn string
-				if r.Chance(1, 4) {
+				if g.spice["query-native-name"] && r.Chance(1, 3) {
+					qn = r.Pick(queryNative)
+				} else if r.Chance(1, 4) {
 					qn = r.Pick(queryOdd)
 				} else {
 					qn = r.Pick(queryPlain)
@@ -507,9 +569,15 @@ func genOA(r *fw.Rand, v int, thorough bool) *oaDoc {
 				if c := nameClass(qn); c != "plain" {
 					g.con("query-name-" + c)
 				}
-				if r.Chance(1, 8) {
+				oddArr := g.spice["array-param-odd-path-or-name"]
+				if r.Chance(1, 8) && (oddArr || !strings.Contains(path, "-")) || oddArr && r.Chance(1, 3) {
 					arrParam++
-					qp.Name = fmt.Sprintf("%ss%d", strings.ReplaceAll(strings.ReplaceAll(qn, " ", ""), "-", ""), arrParam)
+					base := strings.NewReplacer(" ", "", "-", "", ".", "").Replace(qn)
+					if oddArr && strings.Contains(qn, ".") {
+						base = strings.NewReplacer(" ", "", "-", "").Replace(qn)
+						g.con("param-array-dotted-name")
+					}
+					qp.Name = fmt.Sprintf("%ss%d", base, arrParam)
 					qp.S = &oaSchema{K: "arr", Items: &oaSchema{K: "prim", P: oaPrim{[]string{"string", "integer"}[r.Intn(2)], ""}}}
 					g.con("param-array")
 				}
@@ -571,8 +639,69 @@ func genOA(r *fw.Rand, v int, thorough bool) *oaDoc {
 		}
 		d.Paths = append(d.Paths, p)
 	}
+	if d.hasCycle() {
+		g.con("schema-recursion")
+	}
+	for _, p := range d.Paths {
+		for _, op := range p.Ops {
+			for _, pa := range op.Params {
+				if pa.S.K == "arr" && strings.Contains(p.Path, "-") {
+					g.con("param-array-under-dashed-path")
+				}
+			}
+		}
+	}
 	return d
 }
+
+// refsOf lists the schema names a schema refers to (through any nesting).
+func refsOf(s *oaSchema, out *[]string) {
+	if s == nil {
+		return
+	}
+	if s.K == "ref" {
+		*out = append(*out, s.Ref)
+	}
+	refsOf(s.Items, out)
+	for _, p := range s.Props {
+		refsOf(p.S, out)
+	}
+	for _, p := range s.Parts {
+		refsOf(p, out)
+	}
+}
+
+func (d *oaDoc) hasCycle() bool {
+	state := map[string]int{}
+	var visit func(n string) bool
+	visit = func(n string) bool {
+		switch state[n] {
+		case 1:
+			return true
+		case 2:
+			return false
+		}
+		state[n] = 1
+		var refs []string
+		refsOf(d.schema(n), &refs)
+		for _, r := range refs {
+			if visit(r) {
+				return true
+			}
+		}
+		state[n] = 2
+		return false
+	}
+	for _, n := range d.Schemas {
+		if visit(n.Name) {
+			return true
+		}
+	}
+	return false
+}
+
+var oaSpices = []string{"schema-native", "schema-keyword", "schema-prefix", "prop-stmt-keyword", "schema-recursion",
+	"nested-under-escaped-name", "query-native-name", "param-uuid", "top-prim-odd", "array-param-odd-path-or-name"}
 
 // ---- rendering ----
 
